@@ -108,6 +108,10 @@ def generate(rng, tier):
             seen.add(k); cases.append(dict(c, debug_logging=True, family="debug-logging/" + k))
     for c in cases:
         if c.get("noport"): continue
+        if c["h"][0] == "L_ServoV" and rng.random() < 0.6:
+            # another board was on the same serial device a moment ago (unplugged, boot loader, firmware update - its port object was simply
+            # dropped) and was asked the same thing: what this board is sent depends on this board's firmware only
+            c["pre_version"] = rng.choice(["2.5.3", "2.8.1", "2.6.0", "2.5.9", "3.0.0", "2.10.0", "1.9.9"]); c["family"] += "/after-another-board-on-the-same-device-name"
         r = rng.random()
         if r < 0.25: c["delay"] = rng.choice([1, 1, 2, 3]); c["family"] += "/slow-ack"
         elif r < 0.33 and not c["h"][0].startswith("L_"): c["blank"] = True; c["family"] += "/blank-line-before-ack"
@@ -157,6 +161,9 @@ def _run_impl(c):
         return _run_noport(k, a, legacy)
     port = AckPort(legacy, c.get("delay", 0), c.get("blank", False), "%d.%d.%d" % tuple(a[:3]) if k == "L_ServoV" else None, "%d,%d" % (a[2], a[3]) if k == "E_MotorsOnQ" else "0,0")
     port.badack = c.get("badack")
+    if c.get("pre_version"):
+        try: ebb_motion.servo_timeout(AckPort(True, 0, False, c["pre_version"]), a[3], a[4], False)
+        except Exception: pass
     if legacy and c.get("typed_twin") and not c.get("_twin_running"):
         # the same request was made a moment ago with whole-valued floats (or True / False) in place of the integers, on another port:
         # what was built for that call must not be reused for this one (120 == 120.0 and 0 == False, but their texts differ)
